@@ -53,12 +53,17 @@ def _history(job):
         viol.append({'key': key, 'msg': msg, 'witness': {'config': cfg, 'symbols': syms, 'history': list(hist)}})
         raise Stop()
 
+    peak = [float(bal)]
+
     def compare(tag):
         c('state_comparisons')
         q = exch.assets['USDT']
+        # balances are floats: after large amounts have passed through the account the absolute resolution is that of
+        # the largest balance seen, not of the current one
+        peak[0] = max(peak[0], abs(q), abs(float(mdl.quote)))
         if q < 0:
             v('negative_quote_balance', f'{tag}: quote balance {q}')
-        if not models.close_enough(q, mdl.quote):
+        if abs(q - float(mdl.quote)) > 1e-9 * max(1.0, peak[0]):
             v('quote_balance_differs', f'{tag}: quote {q} model {float(mdl.quote)}')
         for s in syms:
             b = exch.assets[jh.base_asset(s)]
